@@ -10,11 +10,11 @@ import (
 
 var propText = map[string]struct{ rule, technique string }{
 	"C10": {
-		rule:      "One case = one simulated run: a seeded history of get/use/put/forget operations by one caller on one PoolAllocator (element type, allocator shape, handle kind, operation arguments drawn from the program tape) against the stub sync.Pool whose pick policy and putdrop/miss/gc faults are drawn from the schedule tape (lane real-sync.Pool: same tapes against the real pool, GOMAXPROCS=1, collector driven by the tape). A run is non-trivial iff at least one Get returned a buffer that had been put back earlier (the reuse path). Distinct = distinct 64-bit signature of the sequence of operation kinds, pool events (which object was put/recycled/dropped/created) and fault events, per lane.",
+		rule:      "One case = one simulated run: a seeded history of get/use/put/forget operations by one caller on one PoolAllocator (element type, allocator shape, handle kind, operation arguments drawn from the program tape) against the stub sync.Pool whose pick policy and putdrop/miss/gc faults are drawn from the schedule tape (lane real-sync.Pool: same tapes against the real pool, GOMAXPROCS=1, collector driven by the tape). A run is non-trivial iff at least one Get happened after a Put the pool accepted (the reuse path had its chance; whether the very same header came back is counted separately in probes_hit.reuse). Distinct = distinct 64-bit signature of the sequence of operation kinds, pool events (which object was put/recycled/dropped/created) and fault events, per lane.",
 		technique: "deterministic simulation: seeded operation histories over a stub sync.Pool with injected pool faults (putdrop, miss, gc), freshness oracle against a fresh Alloc, crosstalk oracle between outstanding buffers",
 	},
 	"C11": {
-		rule:      "One case = one simulated run: G caller tasks (real goroutines released one at a time by the seeded scheduler) each doing M get/check/use/stamp/hold/verify/put cycles on one shared PoolAllocator over the stub sync.Pool with seeded faults. Non-trivial iff the run had >=2 tasks and at least one buffer was recycled (Get returned an object put back earlier). Distinct = distinct 64-bit signature of the sequence of (task, site) scheduler picks together with pool and fault events, per lane.",
+		rule:      "One case = one simulated run: G caller tasks (real goroutines released one at a time by the seeded scheduler) each doing M get/check/use/stamp/hold/verify/put cycles on one shared PoolAllocator over the stub sync.Pool with seeded faults. Non-trivial iff the run had >=2 tasks and at least one Get returned after a Put the pool accepted (recycling of the very same header is counted separately in probes_hit). Distinct = distinct 64-bit signature of the sequence of (task, site) scheduler picks together with pool and fault events, per lane.",
 		technique: "deterministic simulation: seeded cooperative scheduler over caller goroutines + stub sync.Pool with fault injection; race detector as happens-before oracle inside the serialized schedule; ownership stamps and header-identity interval check",
 	},
 	"C19": {
